@@ -70,6 +70,9 @@ pub fn run(outdir: &str, seed: u64, thorough: bool) -> serde_json::Value {
         "SELECT * FROM (SELECT t.id AS k1, t.age AS k2, t.city AS k3, t.score AS a FROM users AS t) AS x NATURAL LEFT JOIN (SELECT u.id AS k1, u.age AS k2, u.city AS k3, u.income AS b FROM users AS u) AS y",
         "SELECT * FROM (SELECT t.id AS k1, t.age AS k2, t.city AS a FROM users AS t) AS x JOIN (SELECT u.id AS k1, u.age AS k2, u.income AS b FROM users AS u) AS y USING (k1, k2)",
         "SELECT * FROM cities NATURAL JOIN users",
+        // set operations whose operands name their columns differently (the output names are generated)
+        "SELECT t.age AS a FROM users AS t UNION ALL SELECT o.user_id AS b FROM orders AS o", "SELECT t.age AS a, t.id AS i FROM users AS t UNION SELECT o.user_id AS b, o.id AS j FROM orders AS o",
+        "SELECT t.age AS a FROM users AS t EXCEPT SELECT o.user_id AS b FROM orders AS o", "SELECT x.a AS c FROM (SELECT t.age AS a FROM users AS t INTERSECT SELECT o.user_id AS b FROM orders AS o) AS x",
         "SELECT t.city AS c, COUNT(DISTINCT t.age) AS a, SUM(DISTINCT t.income) AS b, COUNT(t.id) AS n FROM users AS t GROUP BY t.city"];
     let mut made = 0; let mut attempts = 0;
     while made < n && attempts < n * 20 {
@@ -115,7 +118,7 @@ pub fn run(outdir: &str, seed: u64, thorough: bool) -> serde_json::Value {
                 if s1.iter().map(|x| &x.0).collect::<Vec<_>>() != s3.iter().map(|x| &x.0).collect::<Vec<_>>() {
                     st.violation(json!({"kind":"reparsed-schema-names-differ","class":class,"query":sql,"schema":s1,"reparsed":s3}));
                 } else if s1 != s3 {
-                    st.violation(json!({"kind":"reparsed-schema-types-differ","class":class,"query":sql,"schema":s1.iter().zip(s3.iter()).filter(|(a, b)| a != b).take(3).collect::<Vec<_>>()}));
+                    st.violation(json!({"kind":"reparsed-schema-types-differ","class":class,"query":sql,"schema":s1.iter().zip(s3.iter()).filter(|(a, b)| a != b).take(3).collect::<Vec<_>>(),"rendered":text1.chars().take(3000).collect::<String>()}));
                 }
                 let text3 = render(&rel3);
                 if r.chance(1, 2) {
@@ -144,7 +147,8 @@ pub fn run(outdir: &str, seed: u64, thorough: bool) -> serde_json::Value {
         "SELECT t.city IN ('Paris', 'Lyon') AS x FROM users AS t", "SELECT t.age IN (18, 19, 20) AS x FROM users AS t",
         "SELECT LEAST(t.age, 30) AS x FROM users AS t", "SELECT GREATEST(t.age, t.id, 40) AS x FROM users AS t",
         "SELECT CASE WHEN t.age > 30 THEN t.city ELSE 'none' END AS x FROM users AS t", "SELECT CASE WHEN t.age > 30 THEN 1 WHEN t.age > 20 THEN 2 ELSE 3 END AS x FROM users AS t",
-        "SELECT t.city AS c, COUNT(t.id) AS n, SUM(t.income) AS s FROM users AS t GROUP BY t.city", "SELECT o.status AS c, AVG(o.amount) AS n FROM orders AS o GROUP BY o.status"];
+        "SELECT t.city AS c, COUNT(t.id) AS n, SUM(t.income) AS s FROM users AS t GROUP BY t.city", "SELECT o.status AS c, AVG(o.amount) AS n FROM orders AS o GROUP BY o.status",
+        "SELECT t.age AS a FROM users AS t UNION ALL SELECT o.user_id AS b FROM orders AS o", "SELECT t.id AS i FROM users AS t EXCEPT SELECT o.id AS j FROM orders AS o"];
     let alone: Vec<Option<(String, String, Vec<(String, String)>)>> = pool.iter().map(|q| { let q = q.to_string();
         std::thread::spawn(move || { let w = world(); compile(&w, &q).map(|rel| (format!("{:?}", rel), render(&rel), schema_sig(&rel))) }).join().ok().flatten() }).collect();
     for (i, a) in pool.iter().enumerate() {
@@ -163,6 +167,27 @@ pub fn run(outdir: &str, seed: u64, thorough: bool) -> serde_json::Value {
                 },
                 (None, _) => st.violation(json!({"kind":"compilation-after-another-fails","class":"plain","earlier":a,"query":b})),
                 _ => {}
+            }
+        }
+    }
+    // (f) the same text compiled many times in a row, nothing else happening: every compilation gives the same relation
+    // (a type computed through a hash map keyed by values whose equality and hash disagree changes with the hasher's seed,
+    // about once in sixty compilations)
+    let repeated = ["SELECT s4.e3 + s4.c2 AS x FROM (SELECT t1.qty AS c2, -(-t1.qty) AS e3 FROM items AS t1) AS s4",
+        "SELECT s8.a6 AS g9, SUM(s8.g5 + 7) AS a10, MIN(- s8.a6) AS a12 FROM (SELECT s4.c2 AS g5, COUNT(*) AS a6, STDDEV(s4.e3 + s4.c2) AS a7 FROM (SELECT t1.qty AS c2, -(-t1.qty) AS e3 FROM items AS t1) AS s4 GROUP BY s4.c2) AS s8 GROUP BY s8.a6",
+        "SELECT t.age + CAST(t.age AS FLOAT) AS x, ABS(t.id) - t.id AS y FROM users AS t", "SELECT -(-t.age) * t.age AS x, CASE WHEN t.age > 30 THEN -(-t.id) ELSE t.id END AS y FROM users AS t",
+        "SELECT o.amount AS a, u.age AS b FROM orders AS o JOIN users AS u ON o.user_id = u.id WHERE -(-u.age) > o.user_id"];
+    for q in repeated.iter() {
+        let Some(first) = compile(&w, q) else { st.bump("repeated_query_not_compiled"); continue };
+        let (d0, t0) = (format!("{:?}", first), render(&first));
+        let reps = if thorough { 1500 } else { 400 };
+        st.evaluations += 1; st.distinct.insert(hash_str(&format!("repeat{}", q))); st.add("repeated_compilations", reps as u64);
+        for i in 0..reps {
+            let Some(rel) = compile(&w, q) else { st.violation(json!({"kind":"second-compilation-fails","class":"plain","query":q})); break };
+            if rel != first || format!("{:?}", rel) != d0 || render(&rel) != t0 {
+                let (s0, s1) = (schema_sig(&first), schema_sig(&rel));
+                st.violation(json!({"kind":"compilation-differs-from-one-time-to-the-next","class":"plain","query":q,"repetition":i,"schema_first":s0,"schema_now":s1,"first":first.name(),"now":rel.name()}));
+                break;
             }
         }
     }
